@@ -140,17 +140,28 @@ class SSHChannel(log.Logger):
             self.buf = b""
             self.write(b)
         if self.extBuf:
-            b = self.extBuf
-            self.extBuf = []
-            # Do not let writeExtended() retry a pending close until every
-            # buffered entry has been written or re-buffered.
-            closing, self.closing = self.closing, 0
-            try:
-                for type, data in b:
-                    self.writeExtended(type, data)
-            finally:
-                self.closing = closing
-            if closing:
+            # Flush in place: entries which cannot be sent yet stay queued, in
+            # order, ahead of anything that stopWriting() writes re-entrantly,
+            # and a pending close is only retried once the flush is over.
+            while self.extBuf:
+                dataType, data = self.extBuf[0]
+                now, later = (
+                    data[: self.remoteWindowLeft],
+                    data[self.remoteWindowLeft :],
+                )
+                for offset in range(0, len(now), self.remoteMaxPacket):
+                    self.conn.sendExtendedData(
+                        self, dataType, now[offset : offset + self.remoteMaxPacket]
+                    )
+                self.remoteWindowLeft -= len(now)
+                if later:
+                    self.extBuf[0][1] = later
+                    break
+                del self.extBuf[0]
+            if self.extBuf:
+                self.areWriting = 0
+                self.stopWriting()
+            if self.closing:
                 self.loseConnection()  # try again
 
     def requestReceived(self, requestType, data):
